@@ -180,6 +180,7 @@ def run(pid, tier, out):
     bad, corr_error = [], None
     if model_ok:
         try:
+            cand.SWEEP_LIMIT = 700 if tier == 'quick' else None
             bad = cand.run(seed * 101 + int(pid[1:]), n_states, n_queries, workdir=os.path.join(common.WORK, 'cand_%s' % pid),
                            verbose=False, p_cand=P_CAND[pid], on_answer=on_answer)
         except Exception as exc:      # noqa
